@@ -107,6 +107,16 @@ func (x *Exec) safetyTags() []string {
 	return t
 }
 
+// isLocalVar: the identifier denotes a local variable or parameter (not a struct field, package
+// variable, constant or function).
+func isLocalVar(o types.Object) bool {
+	v, ok := o.(*types.Var)
+	if !ok || v.IsField() {
+		return false
+	}
+	return v.Parent() != nil && v.Pkg() != nil && v.Parent() != v.Pkg().Scope()
+}
+
 // notePtr records that a heap array holds references (for the entry-heap closure axiom).
 func (x *Exec) notePtr(name string, t types.Type) {
 	switch t.Underlying().(type) {
@@ -513,7 +523,7 @@ func (x *Exec) step(st *State, ins ssa.Instruction) bool {
 	fr := st.top()
 	switch i := ins.(type) {
 	case *ssa.DebugRef:
-		if id, ok := i.Expr.(*ast.Ident); ok && id.Name != "_" {
+		if id, ok := i.Expr.(*ast.Ident); ok && id.Name != "_" && isLocalVar(i.Object()) {
 			if fr.names == nil {
 				fr.names = map[string]namedVal{}
 			}
@@ -1434,6 +1444,7 @@ func (x *Exec) loopEnter(st *State, ord int, from, to *ssa.BasicBlock) bool {
 	n := x.fresh("now", SInt)
 	st.assume(app(">=", n, st.now))
 	st.now = n
+	x.closureFacts(st, ts)
 	for phi, v := range hv {
 		fr.vals[phi] = v
 	}
@@ -1479,7 +1490,7 @@ func (x *Exec) loopBack(st *State, al *activeLoop, from, to *ssa.BasicBlock) {
 		}
 	} else if isMapRangeLoop(al.head) {
 		// `for k := range m`: terminates by Go semantics (finite map, every key visited once); recorded as trusted
-		x.v.noteIntrinsic(x.shortFn(x.fn), "termination of range-over-map loops (Go semantics)")
+		x.v.noteIntrinsic(x.shortFn(x.fn), "termination of range loops over maps and slices (Go semantics)")
 	} else {
 		x.emit(st, "loop", fmt.Sprintf("loop%d.dec", al.ord), "false", x.termTags(), "loop has no variant", token.NoPos)
 	}
@@ -1489,6 +1500,9 @@ func (x *Exec) loopBack(st *State, al *activeLoop, from, to *ssa.BasicBlock) {
 }
 
 func isMapRangeLoop(head *ssa.BasicBlock) bool {
+	if head.Comment == "rangeindex.loop" {
+		return true // `for i := range slice`: the length is evaluated once and the index only grows
+	}
 	for _, ins := range head.Instrs {
 		if n, ok := ins.(*ssa.Next); ok && !n.IsString {
 			return true
@@ -1632,5 +1646,31 @@ func (x *Exec) frameCheck(st *State, snap *Snapshot, targets map[string][]string
 			continue
 		}
 		x.emit(st, "frame", name+"@ghost:"+n, eq(cur, old), tags, "ghost "+n+" is not modified", token.NoPos)
+	}
+}
+
+// closureFacts: after a havoc, every reference stored in a havocked reference-valued heap array
+// is nil or an object allocated before the current clock (the heap is closed under allocation).
+func (x *Exec) closureFacts(st *State, ts []target) {
+	done := map[string]bool{}
+	for _, t := range ts {
+		if t.ghost || done[t.array] {
+			continue
+		}
+		done[t.array] = true
+		cur, ok := st.heap[t.array]
+		if !ok {
+			continue
+		}
+		r := x.freshBound("r")
+		switch {
+		case x.ptrArrays[t.array] == "ptr":
+			st.assume("(forall ((" + r + " Int)) (! (or (= (select " + cur + " " + r + ") 0) (< (birth (select " + cur + " " + r + ")) " + st.now + ")) :pattern ((select " + cur + " " + r + "))))")
+		case x.ptrArrays[t.array] == "slice":
+			st.assume("(forall ((" + r + " Int)) (! (or (= (sarr (select " + cur + " " + r + ")) 0) (< (birth (sarr (select " + cur + " " + r + "))) " + st.now + ")) :pattern ((select " + cur + " " + r + "))))")
+		case t.array == "mem.ptr" || t.array == "map.ptr":
+			i := x.freshBound("i")
+			st.assume("(forall ((" + r + " Int) (" + i + " Int)) (! (or (= (select (select " + cur + " " + r + ") " + i + ") 0) (< (birth (select (select " + cur + " " + r + ") " + i + ")) " + st.now + ")) :pattern ((select (select " + cur + " " + r + ") " + i + "))))")
+		}
 	}
 }
